@@ -218,3 +218,339 @@ theorem update_effect {ups : List (String × PyVal)} :
 end PList
 
 end Dfols.Py
+
+namespace Dfols.Py
+
+/-! ### the checks -/
+
+/-- the test holds (evaluates to `True` without raising) -/
+def Test.holds (t : Test) : Bool :=
+  match t.1 () with
+  | .ok true => true
+  | _ => false
+
+theorem firstM_ok {ts : List Test} (h : ∀ t ∈ ts, ∃ b, t.1 () = .ok b) :
+    firstM ts = .ok ((ts.find? Test.holds).map (·.2)) := by
+  induction ts with
+  | nil => rfl
+  | cons t ts ih =>
+    obtain ⟨b, hb⟩ := h t (List.mem_cons_self ..)
+    have ih' := ih (fun t' ht' => h t' (List.mem_cons_of_mem _ ht'))
+    unfold firstM
+    cases b with
+    | true => simp [hb, Test.holds]
+    | false => simp [hb, Test.holds, ih']
+
+/-- bad keys as a pure function (what `check_all_params` computes when every key has a table entry) -/
+def badKeys (types : List (String × TypeEntry)) (pl : PList) (npt : F) : List String :=
+  (pl.filter fun p => match types.lookup p.key with
+                      | some te => !checkEntry te p.val npt
+                      | none => false).map (·.key)
+
+theorem checkAll_ok {types : List (String × TypeEntry)} {npt : F} :
+    ∀ {pl : PList}, (∀ k ∈ pl.keys, (types.lookup k).isSome = true) → checkAll types pl npt = .ok (badKeys types pl npt) := by
+  intro pl
+  induction pl with
+  | nil => intro _; rfl
+  | cons p ps ih =>
+    intro h
+    have hp : (types.lookup p.key).isSome = true := h p.key (by simp [PList.keys])
+    have ih' := ih (fun k hk => h k (by simp only [PList.keys, List.map_cons, List.mem_cons] at hk ⊢; exact Or.inr hk))
+    cases hl : types.lookup p.key with
+    | none => rw [hl] at hp; cases hp
+    | some te =>
+      simp only [checkAll, checkParam, hl, ih', badKeys, List.filter_cons]
+      cases hc : checkEntry te p.val npt <;> simp
+
+/-- a missing table entry makes `check_all_params` hit `assert False` -/
+theorem checkAll_missing {types : List (String × TypeEntry)} {npt : F} :
+    ∀ {pl : PList}, (∃ k ∈ pl.keys, types.lookup k = none) → ∃ e, checkAll types pl npt = .error e := by
+  intro pl
+  induction pl with
+  | nil => intro h; obtain ⟨k, hk, _⟩ := h; cases hk
+  | cons p ps ih =>
+    intro h
+    cases hl : types.lookup p.key with
+    | none => exact ⟨.assertionError, by simp [checkAll, checkParam, hl]⟩
+    | some te =>
+      obtain ⟨k, hk, hnone⟩ := h
+      simp only [PList.keys, List.map_cons, List.mem_cons] at hk
+      rcases hk with rfl | hk
+      · rw [hl] at hnone; cases hnone
+      · obtain ⟨e, he⟩ := ih ⟨k, hk, hnone⟩
+        exact ⟨e, by simp [checkAll, checkParam, hl, he]⟩
+
+/-! #### option checks -/
+
+def optionKeys : List String :=
+  ["growing.safety.full_geom_step", "growing.safety.reduce_delta", "growing.full_rank.use_full_rank_interp",
+   "growing.perturb_trust_region_step", "noise.quit_on_noise_level", "noise.multiplicative_noise_level",
+   "noise.additive_noise_level", "init.run_in_parallel", "init.random_initial_directions", "growing.reset_rho",
+   "growing.reset_delta"]
+
+/-- solver.py:1054-1083 as a list of (condition, message) in order -/
+def optionConds (pl : PList) (bad : List String) : List (Bool × Msg) :=
+  [ (!bad.isEmpty, .badParams bad),
+    ((pl.val "growing.safety.full_geom_step").truthy && (pl.val "growing.safety.reduce_delta").truthy, .safetyBoth),
+    ((pl.val "growing.full_rank.use_full_rank_interp").truthy && (pl.val "growing.perturb_trust_region_step").truthy, .growingBoth),
+    ((pl.val "noise.quit_on_noise_level").truthy && !(pl.val "noise.multiplicative_noise_level").isNone
+        && !(pl.val "noise.additive_noise_level").isNone, .noiseBoth),
+    ((pl.val "init.run_in_parallel").truthy && !(pl.val "init.random_initial_directions").truthy, .parallelCoord),
+    ((pl.val "growing.reset_rho").truthy && !(pl.val "growing.reset_delta").truthy, .resetRho) ]
+
+theorem bothTruthy_ok {pl : PList} {a b : String} (ha : a ∈ pl.keys) (hb : b ∈ pl.keys) :
+    bothTruthy pl a b = .ok ((pl.val a).truthy && (pl.val b).truthy) := by
+  unfold bothTruthy
+  rw [PList.read_of_mem ha, PList.read_of_mem hb]
+  dsimp only
+  cases h : (pl.val a).truthy <;> simp
+
+theorem truthyAndNot_ok {pl : PList} {a b : String} (ha : a ∈ pl.keys) (hb : b ∈ pl.keys) :
+    truthyAndNot pl a b = .ok ((pl.val a).truthy && !(pl.val b).truthy) := by
+  unfold truthyAndNot
+  rw [PList.read_of_mem ha, PList.read_of_mem hb]
+  dsimp only
+  cases h : (pl.val a).truthy <;> simp
+
+/-- a parameter is marked changed only after a non-`None` value was stored (reads never mark) -/
+def PList.Inv (pl : PList) : Prop := ∀ p ∈ pl, p.changed = true → p.val.isNone = false
+
+theorem PList.inv_of_unchanged {pl : PList} (h : ∀ p ∈ pl, p.changed = false) : pl.Inv := by
+  intro p hp hc; rw [h p hp] at hc; cases hc
+
+theorem PList.inv_set {pl : PList} {k : String} {v : PyVal} (h : pl.Inv) (hv : v.isNone = false) : (pl.set k v).Inv := by
+  intro p hp hc
+  simp only [PList.set, List.mem_map] at hp
+  obtain ⟨q, hq, rfl⟩ := hp
+  split
+  · exact hv
+  · next hne =>
+    simp only [hne, Bool.false_eq_true, ↓reduceIte] at hc
+    exact h q hq hc
+
+theorem PList.inv_call {pl pl' : PList} {k : String} {v r : PyVal} (h : pl.Inv) (hc : pl.call k v = .ok (pl', r)) : pl'.Inv := by
+  unfold PList.call at hc
+  split at hc
+  · cases hc
+  · split at hc
+    · cases hc; exact h
+    · next hn =>
+      split at hc
+      · cases hc
+      · cases hc; exact PList.inv_set h (by simpa using hn)
+
+theorem PList.inv_update {ups : List (String × PyVal)} : ∀ {pl pl' : PList}, pl.Inv → pl.update ups = .ok pl' → pl'.Inv := by
+  induction ups with
+  | nil => intro pl pl' h hu; cases hu; exact h
+  | cons kv rest ih =>
+    intro pl pl' h hu
+    unfold PList.update at hu
+    split at hu
+    · cases hu
+    · next pl1 r he => exact ih (PList.inv_call h he) hu
+
+theorem PList.find_mem {pl : PList} {k : String} {p : Param} (h : pl.get? k = some p) : p ∈ pl := List.mem_of_find?_eq_some h
+
+theorem noiseStep_ok {pl : PList} (hinv : pl.Inv)
+    (hq : "noise.quit_on_noise_level" ∈ pl.keys) (hm : "noise.multiplicative_noise_level" ∈ pl.keys)
+    (ha : "noise.additive_noise_level" ∈ pl.keys) :
+    ∃ pl', noiseStep pl = .ok ((pl.val "noise.quit_on_noise_level").truthy && !(pl.val "noise.multiplicative_noise_level").isNone
+                                && !(pl.val "noise.additive_noise_level").isNone, pl') ∧
+      pl'.keys = pl.keys ∧ ∀ k, k ≠ "noise.additive_noise_level" → pl'.val k = pl.val k := by
+  unfold noiseStep
+  rw [PList.read_of_mem hq, PList.read_of_mem hm, PList.read_of_mem ha]
+  dsimp only
+  cases hqt : (pl.val "noise.quit_on_noise_level").truthy
+  · exact ⟨pl, by simp, rfl, fun _ _ => rfl⟩
+  · cases hmu : (pl.val "noise.multiplicative_noise_level").isNone
+    · exact ⟨pl, by simp, rfl, fun _ _ => rfl⟩
+    · cases had : (pl.val "noise.additive_noise_level").isNone
+      · exact ⟨pl, by simp, rfl, fun _ _ => rfl⟩
+      · -- both None: the additive level is set to 0.0; it cannot have been changed before (it is still None)
+        obtain ⟨p, hp⟩ : ∃ p, pl.get? "noise.additive_noise_level" = some p := by
+          have := (PList.get?_isSome pl _).2 ha
+          cases hg : pl.get? "noise.additive_noise_level" with
+          | none => rw [hg] at this; cases this
+          | some p => exact ⟨p, rfl⟩
+        have hpv : p.val.isNone = true := by simpa [PList.val, hp] using had
+        have hpc : p.changed = false := by
+          cases hc : p.changed
+          · rfl
+          · have := hinv p (PList.find_mem hp) hc; rw [hpv] at this; cases this
+        have hcall : pl.call "noise.additive_noise_level" zeroF = .ok (pl.set "noise.additive_noise_level" zeroF, zeroF) := by
+          simp [PList.call, hp, hpc, zeroF, PyVal.isNone]
+        refine ⟨pl.set "noise.additive_noise_level" zeroF, by simp [hcall], PList.keys_set _ _ _, fun k hk => PList.val_set_other hk⟩
+
+theorem optionChecks_ok {pl : PList} (bad : List String) (hinv : pl.Inv) (hk : ∀ k ∈ optionKeys, k ∈ pl.keys) :
+    ∃ pl', optionChecks pl bad = .ok (((optionConds pl bad).find? (·.1)).map (·.2), pl') ∧ pl'.keys = pl.keys := by
+  have k1 := hk "growing.safety.full_geom_step" (by decide)
+  have k2 := hk "growing.safety.reduce_delta" (by decide)
+  have k3 := hk "growing.full_rank.use_full_rank_interp" (by decide)
+  have k4 := hk "growing.perturb_trust_region_step" (by decide)
+  have k5 := hk "noise.quit_on_noise_level" (by decide)
+  have k6 := hk "noise.multiplicative_noise_level" (by decide)
+  have k7 := hk "noise.additive_noise_level" (by decide)
+  have k8 := hk "init.run_in_parallel" (by decide)
+  have k9 := hk "init.random_initial_directions" (by decide)
+  have k10 := hk "growing.reset_rho" (by decide)
+  have k11 := hk "growing.reset_delta" (by decide)
+  obtain ⟨pl', hn, hkeys, hvals⟩ := noiseStep_ok hinv k5 k6 k7
+  have v8 : pl'.val "init.run_in_parallel" = pl.val "init.run_in_parallel" := hvals _ (by decide)
+  have v9 : pl'.val "init.random_initial_directions" = pl.val "init.random_initial_directions" := hvals _ (by decide)
+  have v10 : pl'.val "growing.reset_rho" = pl.val "growing.reset_rho" := hvals _ (by decide)
+  have v11 : pl'.val "growing.reset_delta" = pl.val "growing.reset_delta" := hvals _ (by decide)
+  have t1 := truthyAndNot_ok (pl := pl') (a := "init.run_in_parallel") (b := "init.random_initial_directions")
+    (by rw [hkeys]; exact k8) (by rw [hkeys]; exact k9)
+  have t2 := truthyAndNot_ok (pl := pl') (a := "growing.reset_rho") (b := "growing.reset_delta")
+    (by rw [hkeys]; exact k10) (by rw [hkeys]; exact k11)
+  rw [v8, v9] at t1
+  rw [v10, v11] at t2
+  unfold optionChecks optionConds
+  rw [bothTruthy_ok k1 k2, bothTruthy_ok k3 k4, hn]
+  cases h0 : bad.isEmpty
+  · exact ⟨pl, by simp, rfl⟩
+  · cases h1 : ((pl.val "growing.safety.full_geom_step").truthy && (pl.val "growing.safety.reduce_delta").truthy)
+    · cases h2 : ((pl.val "growing.full_rank.use_full_rank_interp").truthy && (pl.val "growing.perturb_trust_region_step").truthy)
+      · cases h3 : ((pl.val "noise.quit_on_noise_level").truthy && !(pl.val "noise.multiplicative_noise_level").isNone
+                      && !(pl.val "noise.additive_noise_level").isNone)
+        · cases h4 : ((pl.val "init.run_in_parallel").truthy && !(pl.val "init.random_initial_directions").truthy)
+          · cases h5 : ((pl.val "growing.reset_rho").truthy && !(pl.val "growing.reset_delta").truthy)
+            · exact ⟨pl', by simp [t1, t2, h4, h5], hkeys⟩
+            · exact ⟨pl', by simp [t1, t2, h4, h5], hkeys⟩
+          · exact ⟨pl', by simp [t1, h4], hkeys⟩
+        · exact ⟨pl', by simp, hkeys⟩
+      · exact ⟨pl, by simp, rfl⟩
+    · exact ⟨pl, by simp, rfl⟩
+
+end Dfols.Py
+
+namespace Dfols.Py
+
+/-! ### argument checks on numeric arguments -/
+
+theorem Test.holds_of_ok {t : Test} {b : Bool} (h : t.1 () = .ok b) : t.holds = b := by
+  unfold Test.holds; rw [h]; cases b <;> rfl
+
+/-- the arguments that are compared are numbers (`bool`/`int`/`float`); `lh` only when it is looked at -/
+structure Eff.Numeric (e : Eff) : Prop where
+  lh : e.hasH = true → e.lh.isNone = false → e.lh.num?.isSome = true
+  npt : e.npt.num?.isSome = true
+  rhobeg : e.rhobeg.num?.isSome = true
+  rhoend : e.rhoend.num?.isSome = true
+  maxfun : e.maxfun.num?.isSome = true
+
+def Eff.lhF (e : Eff) : F := e.lh.num?.getD .nan
+def Eff.nptF (e : Eff) : F := e.npt.num?.getD .nan
+def Eff.rhobegF (e : Eff) : F := e.rhobeg.num?.getD .nan
+def Eff.rhoendF (e : Eff) : F := e.rhoend.num?.getD .nan
+def Eff.maxfunF (e : Eff) : F := e.maxfun.num?.getD .nan
+
+/-- solver.py:1013-1046 as (condition, message) pairs over the numeric values -/
+def Eff.argConds (e : Eff) : List (Bool × Msg) :=
+  [ (e.hasH && !e.hasProx, .proxMissing),
+    (e.hasH && e.lh.isNone, .lhMissing),
+    (e.hasH && !e.lh.isNone && F.le e.lhF (.fin 0), .lhNonpos),
+    (F.lt e.nptF (F.ofInt ((e.n : Int) + 1)), .nptSmall),
+    (F.le e.rhobegF (.fin 0), .rhobegNonpos),
+    (F.le e.rhoendF (.fin 0), .rhoendNonpos),
+    (F.le e.rhobegF e.rhoendF, .rhobegLeRhoend),
+    (F.le e.maxfunF (F.ofInt 0), .maxfunNonpos),
+    (e.x0shape != [e.n], .x0NotVector),
+    (e.x0shape != e.xl, .xlShape),
+    (e.x0shape != e.xu, .xuShape),
+    (F.lt e.gap (F.dbl e.rhobegF), .gapSmall) ]
+
+theorem isSome_num {v : PyVal} (h : v.num?.isSome = true) : ∃ x, v.num? = some x := by
+  cases hv : v.num? with
+  | none => rw [hv] at h; cases h
+  | some x => exact ⟨x, rfl⟩
+
+theorem argTests_spec (e : Eff) (h : e.Numeric) :
+    (∀ t ∈ argTests e, ∃ b, t.1 () = .ok b) ∧ (argTests e).map (fun t => (t.holds, t.2)) = e.argConds := by
+  obtain ⟨npt, hnpt⟩ := isSome_num h.npt
+  obtain ⟨rb, hrb⟩ := isSome_num h.rhobeg
+  obtain ⟨re, hre⟩ := isSome_num h.rhoend
+  obtain ⟨mf, hmf⟩ := isSome_num h.maxfun
+  have hz : zeroF.num? = some (.fin 0) := rfl
+  have hi : ∀ i : Int, (PyVal.int i).num? = some (F.ofInt i) := fun _ => rfl
+  -- the lh test
+  have hlh : ∃ b, (if (e.hasH && !e.lh.isNone) = true then pyLe e.lh zeroF else Except.ok false) = .ok b ∧
+      b = (e.hasH && !e.lh.isNone && F.le e.lhF (.fin 0)) := by
+    cases hH : e.hasH
+    · exact ⟨false, by simp, by simp⟩
+    · cases hN : e.lh.isNone
+      · obtain ⟨x, hx⟩ := isSome_num (h.lh hH hN)
+        exact ⟨F.le x (.fin 0), by simp [pyLe, hx, hz], by simp [Eff.lhF, hx]⟩
+      · exact ⟨false, by simp, by simp⟩
+  obtain ⟨blh, hblh, hblh'⟩ := hlh
+  constructor
+  · intro t ht
+    simp only [argTests, List.mem_cons, List.mem_nil_iff, or_false] at ht
+    rcases ht with rfl | rfl | rfl | rfl | rfl | rfl | rfl | rfl | rfl | rfl | rfl | rfl
+    · exact ⟨_, rfl⟩
+    · exact ⟨_, rfl⟩
+    · exact ⟨blh, hblh⟩
+    · exact ⟨F.lt npt (F.ofInt ((e.n : Int) + 1)), by simp [pyLt, hnpt, hi]⟩
+    · exact ⟨F.le rb (.fin 0), by simp [pyLe, hrb, hz]⟩
+    · exact ⟨F.le re (.fin 0), by simp [pyLe, hre, hz]⟩
+    · exact ⟨F.le rb re, by simp [pyLe, hrb, hre]⟩
+    · exact ⟨F.le mf (F.ofInt 0), by simp [pyLe, hmf, hi]⟩
+    · exact ⟨_, rfl⟩
+    · exact ⟨_, rfl⟩
+    · exact ⟨_, rfl⟩
+    · exact ⟨F.lt e.gap (F.dbl rb), by simp [gapLt, hrb]⟩
+  · simp only [argTests, Eff.argConds, List.map_cons, List.map_nil]
+    have e1 : Test.holds (fun _ => Except.ok (e.hasH && !e.hasProx), Msg.proxMissing) = (e.hasH && !e.hasProx) := Test.holds_of_ok rfl
+    have e2 : Test.holds (fun _ => Except.ok (e.hasH && e.lh.isNone), Msg.lhMissing) = (e.hasH && e.lh.isNone) := Test.holds_of_ok rfl
+    have e3 : Test.holds (fun _ => if (e.hasH && !e.lh.isNone) = true then pyLe e.lh zeroF else Except.ok false, Msg.lhNonpos)
+        = (e.hasH && !e.lh.isNone && F.le e.lhF (.fin 0)) := by rw [← hblh']; exact Test.holds_of_ok hblh
+    have e4 : Test.holds (fun _ => pyLt e.npt (.int ((e.n : Int) + 1)), Msg.nptSmall) = F.lt e.nptF (F.ofInt ((e.n : Int) + 1)) :=
+      Test.holds_of_ok (by simp [pyLt, hnpt, hi, Eff.nptF])
+    have e5 : Test.holds (fun _ => pyLe e.rhobeg zeroF, Msg.rhobegNonpos) = F.le e.rhobegF (.fin 0) :=
+      Test.holds_of_ok (by simp [pyLe, hrb, hz, Eff.rhobegF])
+    have e6 : Test.holds (fun _ => pyLe e.rhoend zeroF, Msg.rhoendNonpos) = F.le e.rhoendF (.fin 0) :=
+      Test.holds_of_ok (by simp [pyLe, hre, hz, Eff.rhoendF])
+    have e7 : Test.holds (fun _ => pyLe e.rhobeg e.rhoend, Msg.rhobegLeRhoend) = F.le e.rhobegF e.rhoendF :=
+      Test.holds_of_ok (by simp [pyLe, hrb, hre, Eff.rhobegF, Eff.rhoendF])
+    have e8 : Test.holds (fun _ => pyLe e.maxfun (.int 0), Msg.maxfunNonpos) = F.le e.maxfunF (F.ofInt 0) :=
+      Test.holds_of_ok (by simp [pyLe, hmf, hi, Eff.maxfunF])
+    have e9 : Test.holds (fun _ => Except.ok (e.x0shape != [e.n]), Msg.x0NotVector) = (e.x0shape != [e.n]) := Test.holds_of_ok rfl
+    have e10 : Test.holds (fun _ => Except.ok (e.x0shape != e.xl), Msg.xlShape) = (e.x0shape != e.xl) := Test.holds_of_ok rfl
+    have e11 : Test.holds (fun _ => Except.ok (e.x0shape != e.xu), Msg.xuShape) = (e.x0shape != e.xu) := Test.holds_of_ok rfl
+    have e12 : Test.holds (fun _ => gapLt e.gap e.rhobeg, Msg.gapSmall) = F.lt e.gap (F.dbl e.rhobegF) :=
+      Test.holds_of_ok (by simp [gapLt, hrb, Eff.rhobegF])
+    rw [e1, e2, e3, e4, e5, e6, e7, e8, e9, e10, e11, e12]
+
+theorem find_holds (ts : List Test) :
+    (ts.find? Test.holds).map (·.2) = ((ts.map fun t => (t.holds, t.2)).find? (·.1)).map (·.2) := by
+  induction ts with
+  | nil => rfl
+  | cons t ts ih =>
+    simp only [List.find?_cons, List.map_cons]
+    cases t.holds
+    · exact ih
+    · rfl
+
+/-- every documented condition, in the order the code tests them -/
+def Eff.conds (T : Tables) (e : Eff) : List (Bool × Msg) :=
+  e.argConds ++ optionConds e.pl (badKeys T.types e.pl e.nptF)
+
+/-- `solve`'s checks, on numeric arguments and a well-formed parameter list, never raise and
+    report exactly the first documented condition that holds -/
+theorem checkInputs_ok (T : Tables) (e : Eff) (hn : e.Numeric) (hinv : e.pl.Inv)
+    (hopt : ∀ k ∈ optionKeys, k ∈ e.pl.keys) (hty : ∀ k ∈ e.pl.keys, (T.types.lookup k).isSome = true) :
+    ∃ pl', checkInputs T e = .ok (((e.conds T).find? (·.1)).map (·.2), pl') ∧ pl'.keys = e.pl.keys := by
+  obtain ⟨htot, hmap⟩ := argTests_spec e hn
+  obtain ⟨npt, hnpt⟩ := isSome_num hn.npt
+  obtain ⟨mf, hmf⟩ := isSome_num hn.maxfun
+  have hnptF : e.nptF = npt := by simp [Eff.nptF, hnpt]
+  unfold checkInputs Eff.conds
+  rw [firstM_ok htot, find_holds, hmap, List.find?_append]
+  simp only [pyLe, hmf, hnpt, checkAll_ok hty, hnptF]
+  cases hf : e.argConds.find? (·.1) with
+  | some c => exact ⟨e.pl, by simp, rfl⟩
+  | none =>
+    obtain ⟨pl', h1, h2⟩ := optionChecks_ok (badKeys T.types e.pl npt) hinv hopt
+    exact ⟨pl', by simp [h1], h2⟩
+
+end Dfols.Py
